@@ -78,12 +78,15 @@ CHECKS = {
     "C13": (
         "model_checking",
         "explicit-state BFS in which query(k,t) is a state-changing event (candidate cache is part of "
-        "the state), interleaved with add/merge/save+load; differential oracle vs a freshly loaded copy",
+        "the state), interleaved with add/merge/save+load; differential oracle vs a freshly loaded copy; "
+        "plus an exhaustive sweep of widths x n_added()/width on the default-threshold rounding edge",
         "All interleavings to the depth bound of add / add_ngram / merge / save+load / query(t) with "
         "t in {None,0,1,2,2^32-1}; at every query event the answer for k in {1,2,3,inf} is checked for "
         "order, distinctness, count == hh[key] >= threshold, first-k consistency, completeness, and "
         "equality with the answer of a freshly saved+loaded copy (so cache-hit and cache-miss paths "
-        "after every prefix are covered).",
+        "after every prefix are covered). Separately, for every width 2..200 (1200 thorough) and every "
+        "m = n_added()/width in 1..8 (16), default phi and explicit 1/w: a real one-row sketch with a "
+        "key holding exactly m-1 is put through the same oracle with the default threshold.",
         "Trusted: M4; real save/load as the freshness reference. Depth- and alphabet-bounded.",
         "DESIGN.md 4 C13",
     ),
@@ -227,7 +230,8 @@ CHECKS = {
     "C12": (
         "model_checking",
         "exhaustive commuting-diagram enumeration from every state of a small history graph: batch / "
-        "dict / multiplicity / ngram entry points vs loops of single adds on two real objects",
+        "dict / multiplicity / ngram entry points vs loops of single adds on two real objects, including "
+        "start states whose window counters sit at / just below the 2^32-1 ceiling",
         "From every state reachable by <= D adds, for each of the five classes at colliding shapes: "
         "every list over a 3-key alphabet (len <= 3), every dict over the alphabet x values, add(k,v) "
         "for v in {0,1,2,3,7,10^4}, add_ngram(x,n) for EVERY byte string x over 3 bytes of length 0..5 "
